@@ -419,6 +419,9 @@ def run(ctx):
     # ---------------------------------------------------------------- R-C20-3 narrowing
     _check_narrowing(ctx, prog, W, exp_ci)
 
+    ctx.attempt(lambda c: _check_parallel_order(c, prog, exp_ci))
+    ctx.attempt(lambda c: _check_cache_keys(c, prog, imp_ci))
+
     # ---------------------------------------------------------------- R-C20-4 read only
     ctx.rule("R-C20-4", floor=2, what="importer opens the file read-only and reaches no write call")
     opens = [r for r in R.records if r["kind"] == "open"]
@@ -435,6 +438,166 @@ def run(ctx):
     if not bad:
         ctx.holds(IMP, None, "no create/attrs-store/item-store/del reachable in %d importer methods" %
                   len(imp_ci.methods), {"records": len(R.records)})
+
+
+def _unwrap_data(e):
+    """strip transposes, int32 guards, list wrappers and .values from a dataset's data expression"""
+    while True:
+        if isinstance(e, ast.Attribute) and e.attr in ("T", "values"):
+            e = e.value
+        elif isinstance(e, ast.Call) and isinstance(e.func, ast.Name) and len(e.args) == 1 and not e.keywords:
+            e = e.args[0]           # in-module guard helper, np.asarray-like
+        elif isinstance(e, ast.Call) and (call_name(e) or "") in ("np.asarray", "np.array", "np.transpose") and e.args:
+            e = e.args[0]
+        elif isinstance(e, (ast.List, ast.Tuple)) and len(e.elts) == 1:
+            e = e.elts[0]
+        else:
+            return e
+
+
+def _root_name(e):
+    while True:
+        if isinstance(e, (ast.Attribute, ast.Subscript)):
+            e = e.value
+        elif isinstance(e, ast.Call) and isinstance(e.func, ast.Attribute):
+            e = e.func.value
+        elif isinstance(e, ast.Call) and e.args:
+            e = e.args[0]
+        else:
+            return e.id if isinstance(e, ast.Name) else None
+
+
+def _check_parallel_order(ctx, prog, exp_ci):
+    """R-C20-5: the identifier dataset and the value dataset of one variable are parallel arrays - row i of the values
+    belongs to identifier i.  Both must therefore be taken from the same table in the same order class (row order of the mesh,
+    or the key order of one groupby result); ids from a sorted unique / values in row order would attach values to the wrong
+    elements whenever the mesh is not sorted."""
+    from ..orders import Orders
+    ctx.rule("R-C20-5", floor=2, what="identifier and value datasets of a variable come from the same table in the same order class")
+    n = 0
+    for name, fs in exp_ci.methods.items():
+        f = fs[-1]
+        frames = [p_ for p_ in f.params if p_ in ("mesh", "df", "frame")]
+        if not frames:
+            continue
+        o = Orders(prog, [f.module.name])
+        env = {p_: "ROW" for p_ in frames}
+        for _ in range(2):
+            for st in walk_stmts(f.node.body):
+                if isinstance(st, ast.Assign) and isinstance(st.targets[0], ast.Name):
+                    k = o.oc(st.value, env, f)
+                    if k is not None:
+                        env[st.targets[0].id] = k
+        defs = {}
+        for st in walk_stmts(f.node.body):
+            if isinstance(st, ast.Assign) and isinstance(st.targets[0], ast.Name):
+                defs.setdefault(st.targets[0].id, []).append(st.value)
+        blocks = {}
+        for c in calls_in(f.node):
+            if isinstance(c.func, ast.Attribute) and c.func.attr == "create_dataset" and c.args:
+                st = c
+                while not isinstance(st, ast.stmt):
+                    st = st._parent
+                blk = id(st._parent), tuple(id(x) for x in (getattr(st._parent, "body", []) if st in getattr(st._parent, "body", []) else
+                                                            getattr(st._parent, "orelse", [])))
+                blocks.setdefault((blk, norm_text(c.func.value)), []).append((const_value(c.args[0]), c, st))
+        for (blk, recv), items in blocks.items():
+            names = {nm: (c, st) for nm, c, st in items}
+            if not {"MYGEOMETRYIDS", "MYVALUES"} <= set(names):
+                continue
+            cls = {}
+            for nm in ("MYGEOMETRYIDS", "MYVALUES"):
+                c, st = names[nm]
+                data = next((k.value for k in c.keywords if k.arg == "data"), None)
+                if data is None:
+                    raise AnalysisError("%s: dataset %s without data=" % (f.key, nm))
+                e = _unwrap_data(data)
+                k = o.oc(e, env, f)
+                root = _root_name(e)
+                # a local holding ids computed from the table: class and root of its definition
+                if isinstance(e, ast.Name) and e.id in defs and len(defs[e.id]) == 1:
+                    k = o.oc(defs[e.id][0], env, f)
+                    root = _root_name(defs[e.id][0])
+                cls[nm] = (k, root, norm_text(data))
+            n += 1
+            (k1, r1, t1), (k2, r2, t2) = cls["MYGEOMETRYIDS"], cls["MYVALUES"]
+            st = names["MYGEOMETRYIDS"][1]
+            if k1 is None or k2 is None:
+                raise AnalysisError("%s: order class of %s / %s unknown" % (f.key, t1, t2))
+            if k1 == k2 and r1 == r2:
+                ctx.holds(f, st, "%s: ids %s and values %s are both %s of %s" % (f.name, t1, t2, k1, r1))
+            else:
+                ctx.violated(f, st, "%s: identifiers %s are in %s order of %s but the values %s are in %s order of %s: value row i "
+                             "no longer belongs to identifier i for a mesh that is not sorted" % (f.name, t1, k1, r1, t2, k2, r2),
+                             text="parallel datasets order")
+    if n == 0:
+        raise AnalysisError("no variable group with parallel id/value datasets found")
+
+
+def _check_cache_keys(ctx, prog, imp_ci):
+    """R-C20-6: a value cached on the importer object by a method that takes arguments must be keyed by them (or the cache
+    must be reset when they change).  A cache that ignores the geometry / state / variable name returns the first
+    geometry's table for every later one."""
+    ctx.rule("R-C20-6", floor=1, what="importer caches are keyed by the arguments their value depends on")
+    n = 0
+
+    def check(ci, label):
+        nonlocal n
+        out = []
+        for name, fs in ci.methods.items():
+            f = fs[-1]
+            params = [p_ for p_ in f.params if p_ != "self"]
+            if name == "__init__" or not params:
+                continue
+            for st in walk_function(f.node):
+                if not (isinstance(st, ast.If) and any(isinstance(x, ast.Return) for x in st.body)):
+                    continue
+                # `if self._cache is not None: return self._cache`  /  `if key in self._cache: return self._cache[key]`
+                rets = [x for x in st.body if isinstance(x, ast.Return) and x.value is not None]
+                for r in rets:
+                    attrs = [a for a in ast.walk(r.value) if is_self_attr(a)]
+                    if not attrs:
+                        continue
+                    a = attrs[0]
+                    stored = any(isinstance(x, ast.Assign) and any(is_self_attr(t, a.attr) or (isinstance(t, ast.Subscript) and is_self_attr(t.value, a.attr))
+                                                                  for t in x.targets) for x in walk_function(f.node))
+                    if not stored:
+                        continue
+                    used = {n_.id for n_ in ast.walk(st.test) if isinstance(n_, ast.Name)} | \
+                        {n_.id for n_ in ast.walk(r.value) if isinstance(n_, ast.Name)}
+                    dep = [p_ for p_ in params if any(isinstance(n_, ast.Name) and n_.id == p_ for x in f.node.body if x is not st
+                                                       for n_ in ast.walk(x))]
+                    n += 1
+                    out.append((f, st, a.attr, [p_ for p_ in dep if p_ not in used]))
+        return out
+    for f, st, attr, missing in check(imp_ci, "importer"):
+        if missing:
+            ctx.violated(f, st, "%s returns the cached self.%s without looking at its argument(s) %s, on which the value depends: "
+                         "a second geometry/state gets the table of the first" % (f.name, attr, ", ".join(missing)), text="cache " + attr)
+        else:
+            ctx.holds(f, st, "%s: cache self.%s is keyed by the method's arguments" % (f.name, attr))
+    # positive example (the rule expects no unkeyed cache on the real importer)
+    src = ("class I:\n    def __init__(self):\n        self._c = None\n        self._d = {}\n"
+           "    def idx(self, geometry):\n        if self._c is not None:\n            return self._c\n"
+           "        self._c = build(geometry)\n        return self._c\n"
+           "    def idx2(self, geometry):\n        if geometry in self._d:\n            return self._d[geometry]\n"
+           "        self._d[geometry] = build(geometry)\n        return self._d[geometry]\n")
+    import ast as _a
+    from ..frontend import Program as _P, Module as _M, set_parents as _sp
+    tree = _sp(_a.parse(src))
+    p2 = object.__new__(_P)
+    p2.root, p2.overrides, p2._base = "", {}, None
+    p2.modules = {"ex": _M("ex", "ex.py", src, tree, "0")}
+    p2.modules["ex"].pysource = src
+    p2.functions, p2.classes, p2.accessors, p2._subclasses = {}, {}, {}, {}
+    p2._index()
+    n0 = n
+    got = sorted((f.name, bool(m)) for f, st, attr, m in check(p2.classes["ex:I"], "example"))
+    n = n0
+    if got != [("idx", True), ("idx2", False)]:
+        raise AnalysisError("cache-key positive example failed: %s" % got)
+    ctx.holds("selftest:positive-example", None, "cache rule fires on the unkeyed example cache and accepts the keyed one; "
+              "%d cache sites on the importer" % n)
 
 
 def _patch_group_with_attributes(model):
@@ -918,6 +1081,24 @@ def _is_range_check(fi):
 
 def variants():
     out = []
+
+    def sorted_element_ids(tree):
+        f = find_func(tree, "VMAPExport.add_variable")
+        for n in ast.walk(f):
+            if isinstance(n, ast.Assign) and isinstance(n.targets[0], ast.Name) and "drop_duplicates" in ast.unparse(n.value):
+                n.value = parse_expr("np.unique(mesh.index.get_level_values('element_id'))")
+                return True
+        return False
+    out.append(witness("element ids of a variable written in sorted order", EXP_PATH, sorted_element_ids, "R-C20-5"))
+
+    def unkeyed_cache(tree):
+        f = find_func(tree, "VMAPImport._mesh_index")
+        r = [i for i, st in enumerate(f.body) if isinstance(st, ast.Return)][-1]
+        val = ast.unparse(f.body[r].value)
+        f.body[r:r + 1] = [parse_stmt("self._mesh_index_cache = " + val), parse_stmt("return self._mesh_index_cache")]
+        f.body.insert(1, parse_stmt("if getattr(self, '_mesh_index_cache', None) is not None:\n    return self._mesh_index_cache"))
+        return True
+    out.append(witness("mesh index cached without regard to the geometry", IMP_PATH, unkeyed_cache, "R-C20-6"))
 
     def settype_12(tree):
         a = find_func(tree, "VMAPExport.add_node_set")
